@@ -11,7 +11,7 @@ import (
 
 func init() {
 	props["C16"] = c16
-	floors["C16"] = map[string]int{"C16.R1": 2, "C16.R2": 13, "C16.R3": 6, "C16.R4": 5, "C16.R5": 5, "C16.R6": 1}
+	floors["C16"] = map[string]int{"C16.R1": 2, "C16.R2": 13, "C16.R3": 6, "C16.R4": 5, "C16.R5": 5, "C16.R6": 1, "C16.R7": 2}
 }
 
 // caseStrings collects, for a function, the string constants compared (==)
@@ -81,6 +81,85 @@ func c16(r *Report) {
 				}
 				r.Sites++
 				r.Decide("flow", key, decoded || dech, map[bool]string{true: "BodyReader(Decode())", false: "httputil.NewChunkedReader on the chunked edge feeds every consumer"}[decoded], "the snapshot body (which keeps chunk framing) is parsed as if it were the plain body: chunk sizes end up in the HAR entry", c.Pos())
+			}
+		}
+	})
+
+	r.Guard("C16.R7", "a view that is snapshotted into is new, unless the snapshot re-initialises everything it later reads", func() {
+		mvT := w.Named("messageview", "MessageView")
+		if mvT == nil {
+			r.Undecided("messageview.MessageView", "UNRESOLVED")
+			return
+		}
+		for _, name := range []string{"MessageView.SnapshotRequest", "MessageView.SnapshotResponse"} {
+			sn := r.Use("messageview", name)
+			if sn == nil {
+				continue
+			}
+			// fields of the view this snapshot writes on some paths only
+			stores := map[string][]ssa.Instruction{}
+			for _, in := range instrs(sn) {
+				if st, ok := in.(*ssa.Store); ok {
+					if fa, isFa := st.Addr.(*ssa.FieldAddr); isFa && fa.X == ssa.Value(sn.Params[0]) {
+						stores[fieldObj(fa).Name()] = append(stores[fieldObj(fa).Name()], in)
+					}
+				}
+			}
+			var partial []string
+			for fname, sts := range stores {
+				set := map[ssa.Instruction]bool{}
+				for _, s := range sts {
+					set[s] = true
+				}
+				cb := countBefore(sn, func(i ssa.Instruction) bool { return set[i] })
+				for _, ret := range returns(sn) {
+					okRet := false
+					for _, v := range retVals(ret, 0) {
+						if isNilConst(v) {
+							okRet = true
+						}
+					}
+					if okRet && cb[ret].Min == 0 {
+						partial = append(partial, fname)
+						break
+					}
+				}
+			}
+			sort.Strings(partial)
+			// callers in the module
+			for _, site := range w.staticCallers(sn) {
+				f := site.Parent()
+				if !strings.HasSuffix(f.Pkg.Pkg.Path(), "/har") {
+					continue // other loggers are not HAR entries
+				}
+				r.Touch(f)
+				recv := site.Common().Args[0]
+				fresh := true
+				var visit func(v ssa.Value, d int)
+				visit = func(v ssa.Value, d int) {
+					switch x := v.(type) {
+					case *ssa.Call:
+						if calleeName(x) != "M/messageview.New" {
+							fresh = false
+						}
+					case *ssa.Alloc:
+					case *ssa.Phi:
+						if d > 4 {
+							fresh = false
+							return
+						}
+						for _, e := range x.Edges {
+							visit(e, d+1)
+						}
+					default:
+						fresh = false
+					}
+				}
+				visit(recv, 0)
+				key := fmt.Sprintf("%s: the view handed to %s is new or fully re-initialised", fnName(f), strings.TrimPrefix(name, "MessageView."))
+				r.Decide("flow", key, fresh || len(partial) == 0,
+					map[bool]string{true: "receiver is the result of messageview.New() in this function", false: "the snapshot stores every field on every successful path"}[fresh],
+					fmt.Sprintf("the view is recycled (pooled, cached or shared) and %s leaves field(s) %v untouched for some messages: a flag of the previous message (e.g. chunked) decides how this body is interpreted", name, partial), site.Pos())
 			}
 		}
 	})
